@@ -135,6 +135,10 @@ func runDispatch(b *dpBeh) (problems []string) {
 				}
 				inCallback = false
 				mu.Unlock()
+				if b.Ops[step].Kind == "stop" {
+					// a terminal event: the callback ends the connection; the callbacks after it still get the event
+					cancel()
+				}
 			}
 			typ := dpType(op.Typ)
 			if !guarded("hang in subscribe", func() {
@@ -171,7 +175,22 @@ func runDispatch(b *dpBeh) (problems []string) {
 				problems = append(problems, "the connection does not read")
 				return
 			}
-			if !wait("event " + strconv.Itoa(k)) {
+			if op.Kind == "stop" {
+				// the context is cancelled from inside a callback: Connect returns once the dispatch is over (or reads once more first)
+				select {
+				case <-rd.req:
+					select {
+					case <-connDone:
+					case <-time.After(10 * time.Second):
+						problems = append(problems, "Connect did not return within 10 s of a callback cancelling the context")
+						return
+					}
+				case <-connDone:
+				case <-time.After(10 * time.Second):
+					problems = append(problems, "Connect did not return within 10 s of a callback cancelling the context")
+					return
+				}
+			} else if !wait("event " + strconv.Itoa(k)) {
 				return
 			}
 			// exactly the callbacks the spec names, each once
